@@ -10,7 +10,7 @@ tier = sys.argv[4] if len(sys.argv) > 4 else 'quick'
 prop = importlib.import_module(f'mirsym.props.{pid}')
 ws = Workspace(keep=True); ctx = Ctx(ws, tier, 0)
 for p in prop.PROFILES: ctx.mir(p)
-chartab.load(ctx.native('dev').call({'op': 'chartab', 'cps': chartab.R}))
+chartab.load(ctx.native('dev').call({'op': 'chartab', 'cps': chartab.table_chars(ws.src)}))
 jobs = [j for j in prop.jobs(ctx, tier) if only in j.name]
 def onalarm(*a):
     traceback.print_stack(); sys.exit(3)
